@@ -18,8 +18,10 @@ suite = "--no-suite" not in sys.argv
 dst = f"/verif/seeded/{sid}"
 os.makedirs(dst, exist_ok=True)
 meta = json.load(open(os.path.join(src, "meta.json")))
-demo_file = meta.get("demo_file", "")
-demo_cmd = meta.get("demo_cmd", "")
+# the sub-agents wrote these two fields as free text: keep the path / the command proper
+demo_file = (meta.get("demo_file", "") or "").split()[0] if meta.get("demo_file") else ""
+demo_cmd = re.sub(r"^cd <repo root> && ", "", meta.get("demo_cmd", "") or "")
+demo_cmd = re.split(r"\s{2,}\(", demo_cmd)[0].strip()
 demo_src = os.path.join(src, os.path.basename(demo_file)) if demo_file else ""
 wt = f"/tmp/confirm-wt-{os.getpid()}"
 env = dict(os.environ, GOPROXY="off")
